@@ -8,7 +8,7 @@ from core import Family, q, unq, close, run_model, run_impl, cmp_tree
 
 FEATURES = [set(), {"filter"}, {"period_filter"}, {"stochastic"}, {"constraint"},
             {"two_cont_choices"}, {"mixed_discrete_choices", "filter"}, {"filter", "stochastic"},
-            {"constraint", "two_cont_choices"}, set()]
+            {"constraint", "two_cont_choices"}, {"two_stochastic"}, {"period_filter", "stochastic"}, set()]
 
 TRUSTED = [
     "Spec/Lang.v, Spec/Bellman.v, Spec/Layout.v are the specification (hand-written, independent of lcm's array code); the runner evaluates them on the generated model",
@@ -198,7 +198,7 @@ def target_candidates(mspec):
 
 
 def fam_simulate(rng, n, *, name="simulate_vs_spec", max_periods=3, agents=(1, 6), judge=("C02", "C03", "C06", "C13"),
-                 features=None, targets=True):
+                 features=None, targets=True, on_grid_prob=0.3):
     """lcm solve_and_simulate on random models; every panel row judged by the Spec's row oracle.
     Returns (family, per-judgement violation lists are merged into family.violations with a tag)."""
     fam = Family(name,
@@ -216,7 +216,7 @@ def fam_simulate(rng, n, *, name="simulate_vs_spec", max_periods=3, agents=(1, 6
         na = rng.randint(*agents)
         w = wire(c)
         integral = rng.random() < 0.25
-        w["initial_states"] = gen_initial_states(rng, m, na, on_grid=rng.random() < 0.3, integral=integral)
+        w["initial_states"] = gen_initial_states(rng, m, na, on_grid=rng.random() < on_grid_prob, integral=integral)
         w["int_arrays"] = integral      # integer valued continuous states are passed as integer arrays
         if rng.random() < 0.5:
             rng.shuffle(w["initial_states"])          # key order of the mapping is irrelevant
@@ -332,6 +332,19 @@ def judge_panel(m, w, panel, oracle, fam):
         for tn, tv in o["targets"]:
             if tv != "undefined" and close(cols[tn][r], tv) == "diff":
                 viol.append(("C13", f"target column {tn} is {cols[tn][r]} in row (period {t}, agent {i}), the model function gives {tv}", tag_row))
+        # ---- C06: value equals the solved array at on-grid states --------------------------------
+        if o["loc"] is not None and "solution" in panel:
+            a = panel["solution"][t]
+            idx = o["loc"]
+            if len(idx) == len(a["shape"]) and all(0 <= x < s_ for x, s_ in zip(idx, a["shape"])):
+                k = 0
+                for x, s_ in zip(idx, a["shape"]):
+                    k = k * s_ + x
+                if a["data"][k] is not None and cols["value"][r] is not None and close(a["data"][k], cols["value"][r], 1e-9) == "diff":
+                    viol.append(("C06", f"simulated value {cols['value'][r]} of an on-grid state differs from the solved array entry {a['data'][k]} at {idx} (period {t}, agent {i})", tag_row))
+                fam.bump("on_grid_rows")
+            else:
+                viol.append(("C05", f"documented position {idx} of an on-grid state is outside the solved array of shape {a['shape']}", tag_row))
         # ---- C02: decisions ---------------------------------------------------------------------
         vmax, u = o["Vmax"], o["U"]
         if vmax is None:
@@ -339,6 +352,8 @@ def judge_panel(m, w, panel, oracle, fam):
             continue
         if vmax == "-inf":
             fam.bump("rows_without_admissible_choice")
+            if cols["value"][r] != "-inf":
+                viol.append(("C02", f"no admissible choice but the reported value is {cols['value'][r]}, not -inf (period {t}, agent {i})", tag_row))
             continue
         fam.bump("rows_judged")
         on_grid = all(any(close(cols[c_][r], q(pt), 1e-12) != "diff" for pt in G.gpoints(g)) for c_, g in m["choices"])
@@ -350,19 +365,6 @@ def judge_panel(m, w, panel, oracle, fam):
             viol.append(("C02", f"reported choice has objective {u}, the maximum over admissible grid choices is {vmax} (period {t}, agent {i})", tag_row))
         elif close(cols["value"][r], vmax, 1e-9) == "diff":
             viol.append(("C02", f"reported value {cols['value'][r]} differs from the maximum {vmax} (period {t}, agent {i})", tag_row))
-        # ---- C06: value equals the solved array at on-grid states --------------------------------
-        if o["loc"] is not None and "solution" in panel:
-            a = panel["solution"][t]
-            idx = o["loc"]
-            if len(idx) == len(a["shape"]) and all(0 <= x < s_ for x, s_ in zip(idx, a["shape"])):
-                k = 0
-                for x, s_ in zip(idx, a["shape"]):
-                    k = k * s_ + x
-                if a["data"][k] is not None and close(a["data"][k], cols["value"][r], 1e-9) == "diff":
-                    viol.append(("C06", f"simulated value {cols['value'][r]} of an on-grid state differs from the solved array entry {a['data'][k]} at {idx} (period {t}, agent {i})", tag_row))
-                fam.bump("on_grid_rows")
-            else:
-                viol.append(("C05", f"documented position {idx} of an on-grid state is outside the solved array of shape {a['shape']}", tag_row))
     return viol
 
 
